@@ -48,6 +48,15 @@ def obligations(tier, seed):
     for fn_ in ('addr_to_spk', 'base58chkdec', 'bech32dec', 'spk_to_addr', 'jacobi', 'add', 'sub', 'tagged_hash', 'prefix_compact_size', 'reverse', 'int', 'hex'):
         for n in (0, 1, 3): add('btcc/fn/%s/%d' % (fn_, n), kind='btcc', toks=[('fn', fn_, n)])
     add('tf/bech32dec/empty-payload', kind='bechempty')
+    # --- the interactive `tf` command (fn_tf: line splitting, dispatch, argument count handling, printing) on arbitrary argument characters
+    TFNAMES = ['addr-to-scriptpubkey', 'add', 'bech32-decode', 'bech32-encode', 'bech32m-encode', 'base58chk-decode', 'base58chk-encode', 'echo', 'hash160', 'hash256', 'hex', 'int', 'len',
+               'prefix-compact-size', 'reverse', 'ripemd160', 'sha256', 'scriptpubkey-to-addr', 'sub', 'tagged-hash']
+    for nm in TFNAMES:
+        add('tf/%s/no-argument' % nm, kind='tfline', line=[nm])
+        add('tf/%s/one-argument-sym2' % nm, kind='tfline', line=[nm, ('sym', 2)])
+        if tier != 'quick' or nm in ('add', 'sub', 'tagged-hash', 'echo', 'len'): add('tf/%s/two-arguments-sym1' % nm, kind='tfline', line=[nm, ('sym', 1), ('sym', 1)])
+    for ln in ([], ['-h'], ['nosuchfunction', 'x'], [('sym', 2)], ['hex', '0x'], ['hex', '[', ']'], ['add', '0x01', '0x02', '0x03', '0x04'], ['reverse', '""'], ['len', "'"]):
+        add('tf/line/%s' % ' '.join(x if isinstance(x, str) else '?' * x[1] for x in ln), kind='tfline', line=ln)
     # --- btcdeb main
     for n in (1,) if tier == 'quick' else (1, 2): add('btcdeb/script-sym%d' % n, kind='main', args=[('sym', n)], tty=(1, 0, 1), timeout_s=1500)
     for n in (1, 2): add('btcdeb/stack-sym%d' % n, kind='main', args=[('lit', '[OP_DUP OP_DROP]'), ('sym', n)], tty=(1, 0, 1))
@@ -119,6 +128,15 @@ def run(E, ob):
             cs, s = tok_chars(t, i, assume); req += list(len(cs).to_bytes(4, 'little')) + cs; syms += s
         runs = hlib.spec_engine(E, 'w_btcc', [('in', req), ('out', 4000)], assume)
         return finish(E, ob, res, [r[0] for r in runs], dict(syms=syms))
+    if k == 'tfline':
+        chars = []; syms = []
+        for i, x in enumerate(ob['line']):
+            if i: chars.append(32)
+            if isinstance(x, str): chars += list(x.encode())
+            else:
+                cs = sc(x[1], 'l%d_' % i); assume += [z3.And(c != 0, c != 32, c != 10, c != 34, c != 39, c != 92) for c in cs]; chars += cs; syms += cs          # no separators / quotes / escapes (line splitting is the kerl scenario)
+        runs = hlib.spec_engine(E, 'w_fn_tf', [('in', chars + [0])], assume)
+        return finish(E, ob, res, [r[0] for r in runs], dict(line=[c for c in chars], syms=syms))
     if k == 'bechempty':
         # a valid bech32 string with an empty data part: "bc1" + checksum (computed by the reference polymod)
         s = C14.bech32_ref([], 0)
